@@ -381,7 +381,31 @@ pub enum Opened {
 }
 
 /// Open an image with the real store, scan everything, close.
+thread_local! {
+    /// (tables flushed by the recovery of the last `open_and_scan` on this thread, active memtable non-empty after it,
+    /// non-empty WAL segment files in the image) - a side channel used to choose images for the next generation
+    pub static LAST_RECOVERY: std::cell::Cell<(usize, bool, usize)> = const { std::cell::Cell::new((0, false, 0)) };
+}
+
+fn count_files(dir: &Path, ext: &str, nonempty: bool) -> usize {
+    let mut n = 0;
+    if let Ok(rd) = std::fs::read_dir(dir) {
+        for e in rd.flatten() {
+            let p = e.path();
+            if p.is_dir() {
+                n += count_files(&p, ext, nonempty);
+            } else if p.extension().map_or(false, |x| x == ext) && (!nonempty || e.metadata().map_or(false, |m| m.len() > 0)) {
+                n += 1;
+            }
+        }
+    }
+    n
+}
+
 pub fn open_and_scan(cfg: &Cfg, db: &Path, rt: &tokio::runtime::Runtime, probe_commit: bool) -> Opened {
+    let tables_before = count_files(db, "sst", false);
+    let wal_nonempty = count_files(&db.join("wal"), "wal", true);
+    LAST_RECOVERY.with(|c| c.set((0, false, wal_nonempty)));
     let r = std::panic::catch_unwind(std::panic::AssertUnwindSafe(|| {
         rt.block_on(async {
             let o = cfg.options(db, None, true);
@@ -389,6 +413,8 @@ pub fn open_and_scan(cfg: &Cfg, db: &Path, rt: &tokio::runtime::Runtime, probe_c
                 Ok(t) => t,
                 Err(e) => return Opened::OpenFailed(format!("{e:?}")),
             };
+            let tables_after: usize = tree.verif_layout().iter().map(|l| l.len()).sum();
+            LAST_RECOVERY.with(|c| c.set((tables_after.saturating_sub(tables_before), !tree.verif_active_memtable_empty(), wal_nonempty)));
             let res: Result<BTreeMap<Vec<u8>, (usize, u64)>, String> = (|| {
                 let txn = tree.begin_with_mode(surrealkv::Mode::ReadOnly).map_err(|e| format!("begin: {e:?}"))?;
                 let mut it = txn.range(&[0u8][..], &[0xffu8; 9][..]).map_err(|e| format!("range: {e:?}"))?;
@@ -564,7 +590,7 @@ pub fn check_generation(
     salt: u32,
     gen_no: u32,
     known_f03: bool,
-) -> Result<Vec<(usize, usize, FsState)>, Failure> {
+) -> Result<(Vec<(usize, usize, FsState)>, Option<usize>), Failure> {
     let marks = marks_of(&run.trace);
     let states = states_of(base_state, &run.commits);
     let ckeys: Vec<Vec<Vec<u8>>> = run.commits.iter().map(|c| c.iter().map(|w| w.0.clone()).collect()).collect();
@@ -572,6 +598,8 @@ pub fn check_generation(
     let mut fs = base_fs.clone();
     let mut next_point = 0usize;
     let mut candidates = Vec::new();
+    let mut n_process_images: u64 = 0;
+    let mut overfull: Option<(usize, (usize, usize, FsState))> = None;
     let mut torn_candidates: Vec<(usize, usize, FsState)> = Vec::new();
     let mut wal_torn_candidates: Vec<(usize, usize, FsState)> = Vec::new();
     let mut pi = 0usize;
@@ -653,6 +681,7 @@ pub fn check_generation(
                 }
                 Opened::ReadFailed(e) => return Err(fail("read-error-after-recovery", format!("{what}: {e}"), aux)),
                 Opened::State(got) => {
+                    let rec_info = LAST_RECOVERY.with(|c| c.get());
                     if marks.in_recovery[p] {
                         ctx.stats.inc("crash_inside_recovery");
                     }
@@ -710,8 +739,33 @@ pub fn check_generation(
                         }
                     }
                     if let Some(h) = h {
-                        if cm == CrashModel::Process && candidates.len() < 64 {
-                            candidates.push((p, h, fs.clone()));
+                        if cm == CrashModel::Process {
+                            // candidates for the next generation: a uniform sample of the process-crash images over the
+                            // WHOLE trace (reservoir driven by the salt; taking the first 64 never offered the end of a long trace)
+                            n_process_images += 1;
+                            if candidates.len() < 64 {
+                                candidates.push((p, h, fs.clone()));
+                            } else {
+                                let j = (crate::util::hash64(&(salt, n_process_images)) % n_process_images) as usize;
+                                if j < 64 {
+                                    candidates[j] = (p, h, fs.clone());
+                                }
+                            }
+                            // ... and an image whose recovery flushed memtables AND kept a non-empty one in memory only (the
+                            // manifest moved during recovery while part of the log is still needed); preferred: recovery
+                            // flushed at least as many tables as there are non-empty segments, i.e. it had to SPLIT a segment
+                            // that does not fit into one memtable
+                            let (flushed, active_nonempty, segs) = rec_info;
+                            if flushed >= 1 && active_nonempty {
+                                ctx.stats.inc("recovery_flushed_and_kept_a_memtable");
+                                let score = if flushed >= segs { 1000 + flushed } else { flushed };
+                                if score >= 1000 {
+                                    ctx.stats.inc("recovery_split_a_segment");
+                                }
+                                if overfull.as_ref().map_or(true, |(b, _)| score >= *b) {
+                                    overfull = Some((score, (p, h, fs.clone())));
+                                }
+                            }
                         } else if cm != CrashModel::Process && fs.files.iter().any(|(path, f)| cut(path, f) < f.data.len()) {
                             // a power-loss image that really lost bytes: the next generation continues on it; images
                             // whose WAL ends inside a record (header complete, payload cut) are preferred
@@ -731,7 +785,15 @@ pub fn check_generation(
         }
     }
     rm_rf(&img);
-    // the caller picks by index: put one image that lost bytes (chosen by salt) at a fixed place
+    // the caller picks by index: the image with an over-full WAL segment second from the end (if there is one) ...
+    let overfull_idx = overfull.map(|(_, c)| {
+        candidates.push(c);
+        candidates.len() - 1
+    });
+    if overfull_idx.is_some() {
+        ctx.stats.inc("image_with_partly_flushed_recovery_offered_for_next_generation");
+    }
+    // ... and one image that lost bytes (chosen by salt) at the end
     if !wal_torn_candidates.is_empty() && (salt % 4 != 0 || torn_candidates.is_empty()) {
         let t = wal_torn_candidates.swap_remove(salt as usize % wal_torn_candidates.len());
         candidates.push(t);
@@ -741,7 +803,7 @@ pub fn check_generation(
         candidates.push(t);
         ctx.stats.inc("torn_image_offered_for_next_generation");
     }
-    Ok(candidates)
+    Ok((candidates, overfull_idx))
 }
 
 fn diff_count(a: &BTreeMap<Vec<u8>, (usize, u64)>, b: &BTreeMap<Vec<u8>, (usize, u64)>) -> usize {
@@ -823,11 +885,17 @@ pub fn run_crash_case(case: &CrashCase, dir: &Path, judge: Judge) -> CaseResult 
     let mut failure = None;
     match r1 {
         Err(f) => failure = Some(f),
-        Ok(cands) => {
+        Ok((cands, overfull_idx)) => {
             // second generation: continue on a recovered image, crash again
             if !case.work2.is_empty() && !cands.is_empty() {
-                // second pick: the last candidate, which is a power-loss image that lost bytes whenever one exists
-                let pick = [case.salt as usize % cands.len(), cands.len() - 1];
+                // second pick: the last candidate, which is a power-loss image that lost bytes whenever one exists;
+                // third pick: the image with an over-full WAL segment (recovery splits it), if there is one
+                let mut pick = vec![case.salt as usize % cands.len(), cands.len() - 1];
+                if let Some(i) = overfull_idx {
+                    if !pick.contains(&i) {
+                        pick.push(i);
+                    }
+                }
                 let states1 = states_of(&empty, &run.commits);
                 for (gi, ci) in pick.iter().enumerate() {
                     if gi == 1 && pick[0] == pick[1] {
@@ -914,7 +982,14 @@ pub fn crash_strategy(stride: u16, arena_full: bool) -> BoxedStrategy<CrashCase>
     let p = crash_profile();
     let p2 = p.clone();
     (case_strategy(&p), proptest::collection::vec(step_strategy(&p2.step), 0..12), any::<u32>())
-        .prop_map(move |(work, work2, salt)| CrashCase { work, work2, salt, stride, arena_full })
+        .prop_map(move |(mut work, work2, salt)| {
+            if arena_full {
+                // small memtables, so that commits really do run into a full memtable several times per workload
+                // (with the 16 KiB .. 1 MiB of the main stream the workloads hardly ever fill one)
+                work.cfg.memtable = if salt & 1 == 0 { 4 << 10 } else { 8 << 10 };
+            }
+            CrashCase { work, work2, salt, stride, arena_full }
+        })
         .boxed()
 }
 
@@ -933,7 +1008,7 @@ pub fn crash_prop(id: &'static str, judge: Judge, stride: u16, arena_full: bool)
             "recorder shim/iotrace.c (LD_PRELOAD) sees every file operation of the single-threaded workload process; the image builder harness/src/engine_crash.rs is the trusted base".into(),
             "power-loss model: namespace operations (create, rename, unlink, mkdir) survive in order; per file only fsynced bytes are guaranteed; an unsynced appended tail survives wholly, not at all, or torn inside the last write; no zero-filled holes, no reordering".into(),
             "images that cannot be opened are counted (coverage.totals.n_images_not_openable) and left to C07".into(),
-            "the main stream rotates pre-emptively so that a commit's apply rarely hits a full memtable; a sub-stream lets it happen all the time (this is where F03, now fixed, lived)".into(),
+            "the main stream rotates pre-emptively so that a commit's apply rarely hits a full memtable; a sub-stream with 4 / 8 KiB memtables lets it happen several times per workload (this is where F03 and F42, now fixed, lived). Images offered to the second generation: a uniform sample of the process-crash images of the whole trace, one image that lost bytes, and one whose recovery flushed memtables while keeping a non-empty one in memory (preferably after splitting a segment)".into(),
         ],
         strategy: Arc::new(move || crash_strategy(stride, arena_full)),
         run: Arc::new(move |c: &CrashCase, d: &Path| run_crash_case(c, d, judge)),
